@@ -99,7 +99,9 @@ class G(object):
         return "%s%016x" % (tag, self.r.getrandbits(64))
 
     def scenario(self):
-        return {"engine": "fedsim", "prop": self.prop, "seed": self.seed, "tier": self.tier,
+        # environment: local time zone of the process (all SAML time is UTC; nothing may depend on it)
+        tz = mkrng(self.seed, "tz").pick([None, None, None, None, "CET-1", "EST5", "IST-5:30", "NZST-12"])
+        return {"engine": "fedsim", "prop": self.prop, "seed": self.seed, "tier": self.tier, "tz": tz,
                 "knobs": self.knobs, "nodes": self.nodes, "skew": self.skew, "events": self.events}
 
     # ---------------------------------------------------------------- layout
@@ -283,6 +285,8 @@ def gen_c04(seed, tier):
             if r.chance(0.15):
                 d["restyle_all"] = True
                 d["issue_instant"] = 0
+            if r.chance(0.25):
+                d["audiences"] = []     # Conditions that carry time bounds only, no child element (schema-legal)
             p["dialect"] = d
             offs = {"cond_nooa": d["cond_nooa"], "cond_nb": d["cond_nb"], "scd_nooa": d["scd_nooa"],
                     "scd_nb": d["scd_nb"], "session": d["session_nooa"]}
@@ -337,6 +341,8 @@ def gen_c02(seed, tier):
                             enc_keys=[6 + (i % 6)], key=3 + (i % 3)))
     # ... and a ninth SP that leaves all three options to their documented defaults
     sps.append(g.add_sp(8, wrs=None, was=None, waors=None, enc_keys=[8], key=5))
+    for sp_ in sps:
+        sp_["allow_unsolicited"] = g.rl.chance(0.5)     # whether a second copy of an answer can get past the request check
     g.draw_skews(choices=(0, 0, 1, -1, 3))
     faulty = (seed % 2 == 1)
     g.knobs = {"class": "faulty" if faulty else "clean"}
@@ -381,7 +387,15 @@ def gen_c02(seed, tier):
             else:
                 if target == "response" and enc and where in ("text",):
                     where = "attr"
-                g.login(sp, idp, pp, gap=0.5, resp_kw={"mut": {"k": "xml", "where": where, "target": target}})
+                mut = {"k": "xml", "where": where, "target": target}
+                if r.chance(0.3):
+                    # the genuine message arrives first; then a copy of it (same identifiers) that was
+                    # modified after signing is presented to the same SP
+                    f = g.login(sp, idp, pp, gap=0.5)
+                    g.ev("resp", f=f, r=0, dup=True, sub=g.sub(), mut=mut)
+                    g.tick(0.5)
+                else:
+                    g.login(sp, idp, pp, gap=0.5, resp_kw={"mut": mut})
     return g.scenario()
 
 
@@ -398,6 +412,11 @@ def gen_c08(seed, tier):
         sps.append(g.add_sp(i, wrs=g.rl.chance(0.5), was=g.rl.chance(0.3), waors=g.rl.chance(0.3),
                             enc_keys=g.rl.pick([[6 + 2 * i], [6 + 2 * i, 7 + 2 * i], []]),
                             slack=g.rl.pick([None, 0, 60]), allow_unknown_attributes=False))
+        if g.rl.chance(0.35):
+            # the SP's generated metadata asks for particular attributes
+            asked_for = g.rl.sample(ATTR_NAMES, g.rl.pick([1, 2, 3, 4]))
+            nreq = g.rl.pick([0, 0, 1])
+            sps[-1]["req_attrs"], sps[-1]["opt_attrs"] = asked_for[:nreq], asked_for[nreq:]
     g.draw_skews(choices=(0, 0, 1, -1, 3, -3, 30))
     faulty = (seed % 4 == 3)
     g.knobs = {"class": "faulty" if faulty else "clean"}
@@ -696,9 +715,26 @@ def gen_c17(seed, tier):
             continue
         fk = r.pick(["stale-enc-second", "stale-enc-none", "expire", "foreign-audience", "unsolicited-replay",
                      "handover", "misdeliver", "scd-irt", "missing-assertion-sig", "dup", "enc-cert-appears",
-                     "enc-cert-appears"])
+                     "enc-cert-appears", "enc-tool-fault"])
         kw = {}
         after = []
+        if fk == "enc-tool-fault":
+            # the encryption step fails (for one or for every certificate of the SP): the IdP may refuse to
+            # answer, it may not emit the assertion readable; afterwards a healthy retry must work
+            tf = [{"op": "encrypt", "ord": r.pick([0, "all", "all"]), "mode": r.pick(modes_for("encrypt")),
+                   "variant": r.randrange(10 ** 6)}]
+            f = g.new_flow()
+            g.ev("start", f=f, sp=sp["name"], idp=idp["name"], rb=r.pick(["redirect", "post"]), sign=None)
+            g.tick()
+            g.ev("req", f=f)
+            g.tick()
+            g.ev("answer", f=f, p=p, sub=g.sub(), tf=tf)
+            g.tick()
+            g.ev("answer", f=f, p=p, sub=g.sub())
+            g.tick()
+            g.ev("resp", f=f, r=r.pick([0, 1]), sub=g.sub())
+            g.tick()
+            continue
         if fk == "enc-cert-appears":
             # the long-running IdP first knows the SP without any encryption certificate (nothing can be
             # encrypted for it - out of scope), then reloads the SP's metadata in place: from now on a
@@ -775,12 +811,26 @@ def gen_c20(seed, tier):
         p["identity"] = g.identity(hostile=0.1, empty_ok=False)
         p["lifetime"] = 3600
         site = r.pick(["verify", "verify", "verify", "decrypt", "sign", "encrypt", "req-verify"])
-        place = r.pick([0, 1, "all", "all"])
+        place = r.pick([0, 1, "all", "all", "1+", "2+"])
         if site == "decrypt" or site == "encrypt":
             p["encrypt"] = True
             if site == "decrypt" and len(sp["enc_keys"]) > 1 and r.chance(0.5):
                 # the IdP uses the SP's second certificate: first decrypt attempt fails by itself
                 g.ev("setview", node=idp["name"], peer=sp["name"], spec=dict(sp, enc_keys=[sp["enc_keys"][1]]))
+        if site in ("verify", "decrypt") and r.chance(0.25):
+            # the attribute assertion travels encrypted inside the Advice of the main assertion (PEFIM style):
+            # more tool invocations per delivery, the fault may hit any one of them
+            p["sign_assertion"] = True
+            if r.chance(0.6):
+                # ... and is signed itself (another IdP product's composition of the same building blocks)
+                p["advice"] = True
+                p["encrypt"] = False
+                p["dialect"] = {"signed_advice": True}
+            else:
+                p["pefim"] = True
+                p["encrypt"] = r.chance(0.3)
+            p["self_contained"] = True
+            place = r.pick([0, 1, 2, 3, "1+", "2+", "3+", "all"])
         mode = r.pick(modes_for({"verify": "verify", "decrypt": "decrypt", "sign": "sign", "encrypt": "encrypt",
                                  "req-verify": "verify"}[site]))
         tf = [{"op": {"req-verify": "verify"}.get(site, site), "ord": place, "mode": mode, "variant": r.randrange(10 ** 6)}]
